@@ -2,12 +2,13 @@ SPECIFICATION TSpec
 CONSTANTS
   Valid <- ValidRange
   Invalid <- InvalidRange
-  Subs = {"s1", "s2"}
+  Subs = {"s1", "s2", "s3", "f"}
   WrongKinds <- AllWrong
   Dev_ValidateByBytesOnly = FALSE
   MaxWrites = 0
+  Dev_SendErrorFailsWrite = TRUE
 VIEW TView
 CONSTRAINT Track
-INVARIANTS TypedReads StoredTyped AcceptedWritesValidated OneEventPerAcceptedWrite
+INVARIANTS TypedReads StoredTyped AcceptedWritesValidated
 POSTCONDITION Report
 CHECK_DEADLOCK FALSE
